@@ -20,6 +20,17 @@ type c05Case struct {
 }
 
 func mkSuite(via string, s shape) (otp.Suite, error) {
+	if base, ok := strings.CutSuffix(via, "-ptr"); ok {
+		// the same suite handed over behind a pointer (*SuiteConfig / *RawSuite satisfy Suite as well)
+		su, err := mkSuite(base, s)
+		switch v := su.(type) {
+		case otp.SuiteConfig:
+			return &v, err
+		case otp.RawSuite:
+			return &v, err
+		}
+		return su, err
+	}
 	switch via {
 	case "config", "config-framed":
 		return s.lib(), nil
@@ -98,7 +109,7 @@ func c05(r *ev.Run) {
 		for k := 0; k < 15; k++ {
 			for ki := range ocraKeys {
 				in := junk(sh, admissible(sh, k), k+ki)
-				c := c05Case{"raw", sh, ki, in}
+				c := c05Case{[]string{"raw", "raw-ptr"}[ki%2], sh, ki, in}
 				obs, bad := ocraGen(c)
 				n1++
 				if bad != "" {
@@ -164,8 +175,8 @@ func c05(r *ev.Run) {
 					if j == 0 {
 						in = plain
 					}
-					for vi, via := range []string{"config", "newsuite"} {
-						if vi == 1 && (k+j)%2 == 1 && !r.Thorough() {
+					for vi, via := range []string{"config", "newsuite", "config-ptr", "newsuite-ptr"} {
+						if vi >= 1 && (k+j)%3 != vi-1 && !r.Thorough() {
 							continue
 						}
 						c := c05Case{via, sh, (kk + j) % len(ocraKeys), in}
